@@ -118,7 +118,7 @@ func expected(w *model.World, key string) (val interface{}, res model.Res, tr *m
 	// the setting being read counts as entered: the library may evaluate it
 	// more than once per read (type probe + conversion), see Assumptions
 	ev.T.Enter[key] = 1
-	res = ev.Eval(s.Ex, []string{})
+	res = ev.EvalSetting(key, []string{}, true)
 	tr = ev.T
 	if res.IsErr {
 		return nil, res, tr
@@ -223,7 +223,7 @@ func (check) Run(seed int64, tier string, idx int, verbose bool) harness.Result 
 		if tr.Budget {
 			continue
 		}
-		if tr.ReEntry && tr.MultiEnter() {
+		if tr.ReEntry && tr.Absorbed && tr.MultiEnter() {
 			res.Ev("skipped_absorbed_cycle_with_repeated_evaluation", 1)
 			continue
 		}
